@@ -16,7 +16,7 @@ pub fn run(tier: Tier, seed: u64) -> i32 {
 }
 
 fn describe(rep: &mut Report) {
-    rep.rule = "explicit-state BFS over histories of key inputs (shared keys), Byron input, native and Plutus inputs (script inline / by reference, datum witness / inline), collateral, certificates of every witness class, key/script withdrawals, votes of every voter kind, native and Plutus mints, required signers (new / already needed), explicit reference inputs, extra datums; oracle: every script-locked item has its script exactly once (witness set xor declared reference input present in the body), witness datums exactly once, one redeemer per Plutus use, and 0 <= full_size() - |really signed transaction| < |one key witness|.".into();
+    rep.rule = "explicit-state BFS over histories of key inputs (shared keys), three Byron inputs over two addresses, native and Plutus inputs (script inline / by reference, datum witness / inline), collateral, certificates of every witness class, key/script withdrawals, votes of every voter kind, native and Plutus mints, required signers (new / already needed), explicit reference inputs, extra datums; oracle: every script-locked item has its script exactly once (witness set xor declared reference input present in the body), witness datums exactly once, one redeemer per Plutus use, and 0 <= full_size() - |really signed transaction| < |one key witness|.".into();
     rep.trusted_base = vec!["notes/ledger_rules.md §4 (witsVKeyNeeded)".into(), "harness/src/ledger.rs".into()];
-    rep.required_hits = vec!["script-inline", "script-by-reference", "size-exact", "byron+key", "same-script-on-two-uses"];
+    rep.required_hits = vec!["script-inline", "script-by-reference", "size-exact", "byron+key", "same-script-on-two-uses", "byron:two-inputs-one-address", "byron:two-addresses", "byron:repeated-address-among-others"];
 }
